@@ -276,7 +276,7 @@ const LANGUAGES: &[(u16, &str, &[SubLanguage])] = &[
     (0x50, "mn", &[(0x01, "mn-MN")]),
     (0x51, "bo", &[(0x01, "bo-CN")]),
     (0x52, "cy", &[(0x01, "cy-GB")]),
-    (0x53, "kh", &[(0x01, "kh-KH")]),
+    (0x53, "km", &[(0x01, "km-KH")]),
     (0x54, "lo", &[(0x01, "lo-LA")]),
     (0x56, "gl", &[(0x01, "gl-ES")]),
     (0x57, "kok", &[(0x01, "kok-IN")]),
@@ -289,7 +289,7 @@ const LANGUAGES: &[(u16, &str, &[SubLanguage])] = &[
     (0x61, "ne", &[(0x01, "ne-NP"), (0x02, "ne-IN")]),
     (0x62, "fy", &[(0x01, "fy-NL")]),
     (0x63, "ps", &[(0x01, "ps-AF")]),
-    (0x64, "tl", &[(0x01, "tl-PH")]),
+    (0x64, "fil", &[(0x01, "fil-PH")]),
     (0x65, "dv", &[(0x01, "dv-MV")]),
     (0x67, "ff", &[(0x02, "ff-SN")]),
     (0x68, "ha", &[(0x01, "ha-NG")]),
